@@ -589,3 +589,13 @@ Theorem C12_custom_gap_bijection : forall g sw pw rf ns need_stop s,
             ROk (map (fun o => mkorf (rbZ_g g s (o_start o)) (rbZ_g g s (o_stop o)) (o_plus o) (o_rf o)) l).
 Proof. exact custom_gap_bijection. Qed.
 Print Assumptions C12_custom_gap_bijection.
+
+(* custom sets of three-letter codons, any gap set: an ORF of the default pairing begins after a number of non-gap characters
+   congruent to the frame offset and holds a multiple of three of them (frames count residues, not columns) *)
+Theorem C12_custom_is_orf_residues : forall g sw pw s f a e,
+  gap_safe g = true -> words_ok g sw = true -> words_ok g pw = true -> codons3 sw = true -> codons3 pw = true ->
+  is_orf_x g sw pw s f a e ->
+  rbZ_g g (strand_str s f) a mod 3 = frame_key f /\
+  (rbZ_g g (strand_str s f) e - rbZ_g g (strand_str s f) a) mod 3 = 0.
+Proof. exact custom_is_orf_residues. Qed.
+Print Assumptions C12_custom_is_orf_residues.
